@@ -37,7 +37,10 @@ func value(tag string, d, w, s int) MalType {
 		vrt.Assume(!(len(str) >= 2 && str[0] == 0xCA && str[1] == 0x9E))
 		return str
 	case lib.KKeyword:
-		return NewKeyword(string([]byte{vrt.ByteIn(tag+"/kw", "ab-")}) + "x")
+		// keyword names over the token alphabet, including the marker character itself
+		name := lib.RuneStr(tag+"/kw", 2, "ab-", []string{"ʞ"})
+		vrt.Assume(len(name) > 0)
+		return NewKeyword(name)
 	case lib.KSymbol:
 		return Symbol{Val: string([]byte{vrt.ByteIn(tag+"/sy", "ab+")}) + "y"}
 	case lib.KList, lib.KVector:
@@ -129,3 +132,30 @@ func Harness_text() {
 // Harness_text_quoted / Harness_text_raw: the symbolic bytes sit inside a string / raw-string literal.
 func Harness_text_quoted() { Harness_text() }
 func Harness_text_raw()    { Harness_text() }
+
+// Harness_jsonish: strings around the printer's raw-form rule: optional blank
+// space, an opening that looks like JSON, symbolic content, a closing brace,
+// optional blank space; alone and inside a collection.
+func Harness_jsonish() {
+	ws := []string{"", " ", "\n", "\t", " \n"}
+	pre := ws[vrt.Concrete(vrt.Choice("pre", len(ws)))]
+	post := ws[vrt.Concrete(vrt.Choice("post", len(ws)))]
+	open := []string{"{\"", "{", "{ \"", "\"{\""}[vrt.Concrete(vrt.Choice("open", 4))]
+	closing := []string{"}", "\"}", "} ", "}}", ""}[vrt.Concrete(vrt.Choice("close", 5))]
+	mid := lib.RuneStr("mid", vrt.Param("strlen", 2), strAscii, strMulti)
+	str := pre + open + mid + closing + post
+	vrt.Assume(!(len(str) >= 2 && str[0] == 0xCA && str[1] == 0x9E))
+	var v MalType = str
+	switch vrt.Concrete(vrt.Choice("wrap", 3)) {
+	case 1:
+		v = List{Val: []MalType{str, 1}}
+	case 2:
+		v = HashMap{Val: map[string]MalType{NewKeyword("k"): str}}
+	}
+	txt := lisp.PRINT(v)
+	r, err := lisp.READ(txt, nil, nil)
+	vrt.Observe("printed", txt)
+	vrt.Assert(err == nil, "READ rejects the text PRINT produced for a JSON-looking string")
+	vrt.Assert(lib.RefEq(r, v), "READ(PRINT(v)) differs from v for a JSON-looking string")
+	vrt.Reach("end")
+}
